@@ -517,6 +517,20 @@ func Bin(op Op, a, b *Term) *Term {
 				if b.Val == 1 {
 					return rw(mkraw, a)
 				}
+				// unsigned division by a power of two is a shift
+				if op == OpBvUdiv && b.Val != 0 && b.Val&(b.Val-1) == 0 {
+					k := bits.TrailingZeros64(b.Val)
+					return rw(mkraw, Zext(Extract(w-1, k, a), w))
+				}
+			case OpBvUrem:
+				// unsigned remainder by a power of two keeps the low bits
+				if b.Val != 0 && b.Val&(b.Val-1) == 0 {
+					k := bits.TrailingZeros64(b.Val)
+					if k == 0 {
+						return rw(mkraw, Const(w, 0))
+					}
+					return rw(mkraw, Zext(Extract(k-1, 0, a), w))
+				}
 			case OpBvAnd:
 				if b.Val == 0 {
 					return rw(mkraw, Const(w, 0))
